@@ -45,6 +45,7 @@ def regen():
     """Regenerate Gen/*.lean from the repository; returns {part: error}."""
     import gen
     with Lock('lake'):
+        ensure_build_config()
         return gen.main()
 
 def lake_build(targets, timeout=3000):
@@ -163,6 +164,25 @@ SAN_FLAGS = ['-O1', '-g', '-w', '-fsanitize=address,undefined', '-fno-sanitize=a
              '-fno-sanitize-recover=all', '-fno-omit-frame-pointer', '-DOPENFEC_LITTLE_ENDIAN']
 NOSAN_FLAGS = ['-O2', '-g', '-w', '-DOPENFEC_LITTLE_ENDIAN']
 
+def ensure_build_config():
+    """src/lib_common/of_build_config.h is produced by the project's cmake configure step (configure_file writes it into
+    the source directory; git ignores it).  A tree that was never configured lacks it: produce it the same way, with the
+    project's default options (the four stable codecs on, LDPC-from-file and SSE off)."""
+    dst = os.path.join(repo(), 'src', 'lib_common', 'of_build_config.h')
+    if os.path.exists(dst):
+        return
+    src = dst + '.in'
+    on = {'OF_USE_REED_SOLOMON_CODEC', 'OF_USE_REED_SOLOMON_2_M_CODEC', 'OF_USE_LDPC_STAIRCASE_CODEC', 'OF_USE_2D_PARITY_MATRIX_CODEC'}
+    out = []
+    for line in open(src):
+        m = re.match(r'#cmakedefine\s+(\w+)', line)
+        if m:
+            out.append('#define %s\n' % m.group(1) if m.group(1) in on else '/* #undef %s */\n' % m.group(1))
+        else:
+            out.append(line)
+    with open(dst, 'w') as f:
+        f.write(''.join(out))
+
 def lib_sources():
     src = os.path.join(repo(), 'src')
     out = []
@@ -208,6 +228,7 @@ def build_dir(sanitize=True):
     d = os.path.join(CACHE, 'build_' + key)
     os.makedirs(CACHE, exist_ok=True)
     with Lock('cbuild'):
+        ensure_build_config()
         if os.path.exists(os.path.join(d, 'OK')):
             os.utime(d)
             return d
